@@ -100,7 +100,58 @@ func eq(a, b string) string {
 	if a == b {
 		return "true"
 	}
+	if isNumeral(a) && isNumeral(b) {
+		return "false"
+	}
+	if r, ok := constEq(a, b); ok {
+		if r {
+			return "true"
+		}
+		return "false"
+	}
+	// (= (ite c x y) k) with x,y,k constants known to be equal/different
+	if strings.HasPrefix(a, "(ite ") && (b == "0" || isNonZeroConst(b)) {
+		p := splitTop(a[1 : len(a)-1])
+		if len(p) == 4 {
+			x, xk := constEq(p[2], b)
+			y, yk := constEq(p[3], b)
+			if xk && yk {
+				switch {
+				case x && y:
+					return "true"
+				case x && !y:
+					return p[1]
+				case !x && y:
+					return not(p[1])
+				default:
+					return "false"
+				}
+			}
+		}
+	}
 	return app("=", a, b)
+}
+
+// isNonZeroConst: error identities that are non-zero by construction.
+func isNonZeroConst(t string) bool {
+	if isNumeral(t) {
+		return t != "0"
+	}
+	return strings.HasPrefix(t, "ERR_") || strings.HasPrefix(t, "G_") || strings.HasPrefix(t, "err!")
+}
+
+// constEq decides syntactically whether constant t equals constant k (second result: decided).
+func constEq(t, k string) (bool, bool) {
+	if t == k {
+		return true, true
+	}
+	if k == "0" && isNonZeroConst(t) {
+		return false, true
+	}
+	if t == "0" && isNonZeroConst(k) {
+		return false, true
+	}
+	return false, false
 }
 func ite(c, a, b string) string {
 	if c == "true" {
@@ -136,6 +187,7 @@ type Enc struct {
 	sortCache map[types.Type]string
 	usedAssum map[string]bool // assumption tags used
 	grounded  map[string]bool
+	named     map[string]string // literals declared by the prelude
 	axiomSet  map[string]bool
 }
 
@@ -202,6 +254,11 @@ func (e *Enc) Lit(s string) string {
 	if c, ok := e.lits[s]; ok {
 		return c
 	}
+	if c, ok := e.named[s]; ok {
+		e.lits[s] = c
+		e.litOrder = append(e.litOrder, s)
+		return c
+	}
 	c := fmt.Sprintf("lit%d_%s", len(e.lits), sanitize(trunc(s, 24)))
 	e.lits[s] = c
 	e.litOrder = append(e.litOrder, s)
@@ -228,6 +285,8 @@ const basePrelude = `
 (declare-fun bnil (Bytes) Bool)
 (declare-fun bcat (Bytes Bytes) Bytes)
 (declare-fun itype (Iface) Int)
+(define-fun wrap.i64 ((x Int)) Int (ite (< x (- 9223372036854775808)) (+ x 18446744073709551616) (ite (>= x 9223372036854775808) (- x 18446744073709551616) x)))
+(define-fun wrap.u64 ((x Int)) Int (ite (< x 0) (+ x 18446744073709551616) (ite (>= x 18446744073709551616) (- x 18446744073709551616) x)))
 (declare-const iface_nil Iface)
 (assert (= (itype iface_nil) 0))
 (assert (= (blen bempty) 0))
@@ -242,20 +301,35 @@ func (e *Enc) Header(extraPrelude string) string {
 		b.WriteString("\n")
 	}
 	// literals
-	for i, s := range e.litOrder {
+	for _, s := range e.litOrder {
 		c := e.lits[s]
-		fmt.Fprintf(&b, "(declare-const %s Bytes)\n(assert (= (blen %s) %d))\n", c, c, len(s))
-		_ = i
-	}
-	if len(e.litOrder) > 1 {
-		var cs []string
-		for _, s := range e.litOrder {
-			cs = append(cs, e.lits[s])
+		if _, isNamed := e.named[s]; isNamed {
+			continue
 		}
-		fmt.Fprintf(&b, "(assert (distinct %s))\n", strings.Join(cs, " "))
+		fmt.Fprintf(&b, "(declare-const %s Bytes)\n(assert (= (blen %s) %d))\n", c, c, len(s))
 	}
 	b.WriteString(extraPrelude)
 	b.WriteString("\n")
+	// all string literals (named ones are declared by the prelude) are pairwise distinct
+	{
+		seen := map[string]bool{}
+		var cs []string
+		for _, s := range e.litOrder {
+			if !seen[e.lits[s]] {
+				seen[e.lits[s]] = true
+				cs = append(cs, e.lits[s])
+			}
+		}
+		for _, s := range sortedKeys(e.named) {
+			if !seen[e.named[s]] {
+				seen[e.named[s]] = true
+				cs = append(cs, e.named[s])
+			}
+		}
+		if len(cs) > 1 {
+			fmt.Fprintf(&b, "(assert (distinct bempty %s))\n", strings.Join(cs, " "))
+		}
+	}
 	for _, d := range e.decls {
 		b.WriteString(d)
 		b.WriteString("\n")
@@ -582,7 +656,7 @@ func (e *Enc) TypeFacts(term string, t types.Type, depth int) []string {
 		}
 	case *types.Slice:
 		if !isByte(u.Elem()) {
-			out = append(out, app(">=", app("seq.len", term), "0"))
+			out = append(out, app(">=", app("seq.len", term), "0"), app("<", app("seq.len", term), two63))
 		} else {
 			out = append(out, bytesFacts(term)...)
 		}
@@ -630,11 +704,16 @@ func sortedKeys[V any](m map[string]V) []string {
 
 // bytesFacts: ground instances of the byte-string axioms for one term
 // (len >= 0; len == 0 iff the value is the empty string).
+// isNoneT / isSomeT: option tests written without testers (z3 cannot resolve testers of
+// parametric datatypes once several instances exist).
+func isNoneT(t, optSort string) string { return eq(t, "(as None "+optSort+")") }
+func isSomeT(t, optSort string) string { return not(isNoneT(t, optSort)) }
+
 func bytesFacts(t string) []string {
 	if t == "bempty" {
 		return nil
 	}
-	return []string{app(">=", app("blen", t), "0"), eq(eq(app("blen", t), "0"), eq(t, "bempty"))}
+	return []string{app(">=", app("blen", t), "0"), app("<", app("blen", t), two63), eq(eq(app("blen", t), "0"), eq(t, "bempty"))}
 }
 
 // GroundBytes adds ground instances of the byte-string axioms for a constructed term.
